@@ -657,6 +657,12 @@ class Engine:
             # writes only the slot named by its own loop index (slots of different iterations are then disjoint)
             self.emit(st, "race", idxs[0] == st.env[pr["var"]].z, line, f"[{label}]")
         if not ghost and self.ghost_mode: raise Unsupported("ghost code writes program array")
+        if elem == "int" and val.kind == "float" and not ghost:
+            # numba truncates a float stored into an integer array (and NaN becomes an arbitrary integer): never value-preserving in general, so a named obligation that
+            # cannot be discharged; the slot then holds an unconstrained integer of the array's dtype
+            self.emit(st, "lossy", z3.BoolVal(False), line, f"[{label}:{dtype}]")
+            val = Val("int", z3.Int(f"trunc?{next(self.fresh)}"))
+            if INT_RANGES.get(dtype): lo_, hi_ = INT_RANGES[dtype]; st.pc.append(z3.And(val.z >= lo_, val.z <= hi_))
         z = self.coerce(val, elem) if val.kind != elem else val.z
         if elem == "int" and INT_RANGES.get(dtype): lo, hi = INT_RANGES[dtype]; self.emit(st, "overflow", z3.And(z >= lo, z <= hi), line, f"[{label}:{dtype}]")
         if elem == "float" and val.kind == "int" and self.contract.get("exact"):
